@@ -107,6 +107,40 @@ func init() {
 			}
 		}})
 
+	// c08.vhost: the built-in rewriters (NewVHostPathRewriter, NewPathSlashesStripper) with hostile Host headers and
+	// paths: what they hand to the file handler stays below the root.
+	register(&Unit{Name: "c08.vhost", Props: []string{"C08", "C07"},
+		// in: rewriter (0 vhost, 1 slashes stripper), slashes count, Host header, request path
+		Check: func(t *T, in In) []Finding {
+			tr := c08Tree()
+			e := newRunningEngine(func(o *config.Options) { o.NoDefaultDate = true })
+			rw := app.NewVHostPathRewriter(in.N(1))
+			if in.N(0) == 1 {
+				rw = app.NewPathSlashesStripper(in.N(1))
+			}
+			e.StaticFS("/", &app.FS{Root: tr.root, PathRewrite: rw, IndexNames: []string{"index.html"}, GenerateIndexPages: true})
+			startEngine(e)
+			out, _ := serveScript(e, newScriptConn([][]byte{[]byte("GET " + string(in.B(3)) + " HTTP/1.1\r\nHost: " + string(in.B(2)) + "\r\n\r\n")}))
+			var fs []Finding
+			if bytes.Contains(out, tr.secret) || bytes.Contains(out, []byte("secret.txt")) {
+				fs = append(fs, Finding{Kind: "oracle", Unit: "c08.vhost", Class: "file-or-listing-outside-the-root-served", Impl: truncate(string(out), 300)})
+			}
+			return fs
+		},
+		Gen: func(t *T) {
+			hosts := []string{"..", ".", "../..", "a/..", "%2e%2e", "..%2f", "h", "", "..\\..", "a/../..", "...", ".. "}
+			paths := []string{"/", "/one.txt", "/a/b", "/../x", "/..", "//", "/dir/", "/a", "/index.html", "/x.txt"}
+			for rwk := 0; rwk < 2; rwk++ {
+				for n := 0; n <= 3; n++ {
+					for _, h := range hosts {
+						for _, p := range paths {
+							t.Do(In{Nn(rwk), Nn(n), H([]byte(h)), H([]byte(p))}, true)
+						}
+					}
+				}
+			}
+		}})
+
 	// c08.rewrite: FS.PathRewrite may hand the handler any path (here: taken verbatim from a query argument).  Whatever
 	// it is, nothing outside the root is served: the guard of the file handler itself.
 	register(&Unit{Name: "c08.rewrite", Props: []string{"C08", "C07"},
